@@ -231,6 +231,9 @@ func (r *runner) ctl(at int, o Op) *Failure {
 	r.st.CtlOps[o.Ctl]++
 	r.pre = c10pre{}
 	r.class = ""
+	if !r.cfg.C08 && !r.cfg.C10 {
+		return r.ctlModelFree(at, o)
+	}
 	switch o.Ctl {
 	case "compact":
 		db := r.lab.DB()
@@ -362,4 +365,30 @@ func (r *runner) clockAmbiguous(typ, tk string) bool {
 	}
 	now := time.Now().Unix()
 	return exp > now-3 && exp < now+3600
+}
+
+// ctlModelFree: harness action in a C09 execution (no model): run it, then the
+// identities and the structural walk (the orphan clause needs per-command
+// bookkeeping under wait_compact, so it is evaluated under local_deletion).
+func (r *runner) ctlModelFree(at int, o Op) *Failure {
+	switch o.Ctl {
+	case "ttlcheck":
+		if r.cfg.Policy != PolicyLocal {
+			return nil
+		}
+		if _, err := r.lab.DB().VerifTTLCheckOnce(); err != nil {
+			return nil
+		}
+	case "compact":
+		r.lab.DB().CompactAllRange()
+	default:
+		return nil
+	}
+	if r.cfg.C09 {
+		if f := r.identitiesAll(at); f != nil {
+			return f
+		}
+		return r.structWalkOpt(at, o, nil, true)
+	}
+	return nil
 }
